@@ -42,6 +42,16 @@ func conform(tag, src string, doc any, vars exec.Vars, opts ...exec.Option) {
 		nd.Assert(false, "C01/null-element-dropped")
 		return
 	}
+	// Under a known finding's model the evaluation takes another course (a
+	// null element was subscripted, or `is unknown` met an unknown variable)
+	// and reaches a rule the reference leaves open: the input lies in the
+	// region of that finding, and nothing further can be attributed here.
+	for _, sw := range [][2]bool{{true, false}, {false, true}, {true, true}} {
+		if _, _, op, _ := refQueryOpt2(p.AST, doc, vars, sw[0], sw[1]); op {
+			nd.Cover(tag + "/open-under-known-finding")
+			return
+		}
+	}
 	if ge != werr {
 		nd.Assert(false, tag+"/error-class")
 		return
